@@ -17,14 +17,16 @@ def tl_mode(segs):
     h = 0
     for a, b in segs:
         h = (h * 29 + 5 * a + 11 * b) % 1000003
-    return (h + len(segs)) % 3
+    return (h + len(segs)) % 5
 
 
 def mk_tl(tb, segs, uri=None, mode=None):
-    """a Timeline holding `segs`, reached by one of three histories chosen from the segments:
+    """a Timeline holding `segs`, reached by one of five histories chosen from the segments:
     0 the constructor; 1 the constructor followed by every query once; 2 built with a placeholder instead of
     the last segment, every query called once (at every bound as time point), then the placeholder is
-    removed and the last segment added - same number of segments before and after."""
+    removed and the last segment added - same number of segments before and after; 3 / 4 the first half (plus
+    one shared segment) built, every query called once, then the second half merged in with update() / |=
+    (the two operands share a segment, and the merge usually moves the extent)."""
     from pyannote.core import Timeline
     mode = tl_mode(segs) if mode is None else mode
     S = [tb.S(s) for s in segs]
@@ -34,6 +36,16 @@ def mk_tl(tb, segs, uri=None, mode=None):
     if mode == 1:
         t = Timeline(S, uri=uri)
         _prime_tl(t, probes)
+        return t
+    if mode in (3, 4):
+        k = len(S) // 2
+        t = Timeline(S[:k + 1], uri=uri)
+        _prime_tl(t, probes)
+        other = Timeline(S[k:], uri="other")
+        if mode == 3:
+            t.update(other)
+        else:
+            t |= other
         return t
     far = max(abs(x) for s in segs for x in s) + 1000
     dummy = tb.S([far, far + 7])
